@@ -48,17 +48,17 @@ LEVEL_TEXT = ("Search over generated potentials, integrator settings and keys. T
               "turning/diverging flags, reason for stopping, validity of every doubling). What cannot be decided per "
               "case - that the random choices inside NUTS/HMC select the candidate with the right probabilities, and "
               "that momenta are refreshed from N(0, M) - is covered by fixed-key chains whose moments are compared "
-              "with known values at a threshold of 6 batch-means standard errors plus 6 x max(batch-means, i.i.d.) standard "
-              "errors (analytic false-alarm probability < 4e-13 per comparison, see LEVEL_NOTE). Exploration, not proof: "
+              "with known values at a threshold of 6 batch-means standard errors plus 3 x max(batch-means, i.i.d.) standard "
+              "errors (analytic false-alarm probability < 7e-13 per comparison, see LEVEL_NOTE). Exploration, not proof: "
               "dimension <= 4, tree depth <= 7, float64.")
 LEVEL_NOTE = ("Trusted: numpy, jax.random (uniform/bernoulli/PRNGKey), jax.jit/jacfwd/grad, the harness's NumPy "
               "gradients (cross-checked against finite differences of the NumPy potential at import of a recipe). "
-              "Statistical threshold: |mean_N(f) - E f| <= 6*SE_bm + 6*max(SE_bm, sigma_f/sqrt(N)), N = 16384, SE_bm from "
-              "32 batch means of 512 samples (measured autocorrelation times are <= 50, so batch means are "
-              "independent), sigma_f the exact standard deviation of f under the target. With autocorrelation time "
-              "tau the true standard error is sigma_f*sqrt(tau/N); a false alarm needs |Z| > 6*sqrt(W) + "
-              "6*max(sqrt(W), 1/sqrt(tau)) with Z ~ N(0,1), W ~ chi2_31/31, which is bounded by P(|t_31| > 12) = "
-              "3.5e-13 for every tau (numerically 3e-14 at tau=4); <= 400 comparisons per run => < 2e-10 per run. "
+              "Statistical threshold: |mean_N(f) - E f| <= 6*SE_bm + 3*max(SE_bm, sigma_f/sqrt(N)) (6 sigma + floor), "
+              "N = 32768, SE_bm from 64 batch means of 512 samples (measured autocorrelation times are <= 50, so "
+              "batch means are independent), sigma_f the exact standard deviation of f under the target. With "
+              "autocorrelation time tau the true standard error is sigma_f*sqrt(tau/N); a false alarm needs |Z| > "
+              "6*sqrt(W) + 3*max(sqrt(W), 1/sqrt(tau)) with Z ~ N(0,1), W ~ chi2_63/63, which is bounded by "
+              "P(|t_63| > 9) = 6.5e-13 for every tau; <= 400 comparisons per run => < 3e-10 per run. "
               "The i.i.d. momentum-refresh test uses 7 sigma (Gaussian / Laurent-Massart chi-square bound, < 1e-10).")
 TECHNIQUE = "PBT: NumPy reference orbit + metamorphic reversibility/symplecticity + fixed-key chain moments"
 ASSUMPTIONS = [
@@ -81,6 +81,8 @@ ASSUMPTIONS = [
     "depth may reach max_tree_depth+1 (the loop doubles while depth <= max_tree_depth; the source comment in "
     "iterative_build_tree acknowledges it) - recorded as an observation against the docstring's 2**max_tree_depth, "
     "not demanded",
+    "max_tree_depth >= 1 (observation: max_tree_depth=0 raises IndexError inside iterative_build_tree because the "
+    "buffer of sub-tree end points has size 0; degenerate value, outside the statement)",
     "not demanded because the statement is silent: Tree.cumulative_acceptance, Chain.acceptance of NUTS",
     "HMC chains on Gaussians: the number of leapfrog steps is chosen by the harness (from the recipe's spectrum) so "
     "that no eigen-mode is rotated by a multiple of pi per transition (a fixed-length HMC chain is then not ergodic; "
@@ -639,10 +641,10 @@ def _attempt(orb, start, direction, depth, maxde, tolscale):
     for j in range(1, 2 ** depth + 1):
         i = start + direction * j
         Hi = orb.H[i]
-        if not np.isfinite(Hi):
-            raise _Ambiguous()
+        if np.isnan(Hi) or (np.isinf(Hi) and math.isinf(maxde)):
+            raise _Ambiguous()          # NaN > max is False, inf > inf is False: unspecified territory
         dev = abs(float(Hi - H0))
-        herr = TOL * max(1.0, abs(H0), abs(Hi))
+        herr = TOL * max(1.0, abs(H0), min(abs(Hi), 1e300))
         if abs(dev - maxde) <= herr:
             raise _Ambiguous()
         div = dev > maxde
@@ -770,8 +772,8 @@ def check_nuts(rec):
 
 
 # ---------------------------------------------------------------------------------------------- 5/6 chains
-NB = 32          # batches
-NKEEP = 16384    # kept samples (32 batches of 512)
+NB = 64          # batches
+NKEEP = 32768    # kept samples (64 batches of 512)
 NBURN = 512
 
 
@@ -825,7 +827,7 @@ def chain_recipes(sampler):
 
 
 def _target(rec):
-    """-> (theta (np), invm, moments: list of (name, f(X)->values, mean, sigma), start position, omega_ref)"""
+    """-> (theta (np), invm, moments: list of (name, kind, f(X)->values, mean, sigma), start position, omega_ref)"""
     n = LAYOUTS[rec["layout"]]
     invm = np.array(rec["invm"], dtype=np.float64)
     if rec["target"] == "gauss":
@@ -841,10 +843,11 @@ def _target(rec):
         Li = np.linalg.inv(Lc)
         moms = []
         for i in range(n):
-            moms.append((f"E[y{i}]", (lambda X, i=i: ((X - mu) @ Li.T)[:, i]), 0.0, 1.0))
+            moms.append((f"E[y{i}]", "mean", (lambda X, i=i: ((X - mu) @ Li.T)[:, i]), 0.0, 1.0))
         for i in range(n):
             for j in range(i, n):
-                moms.append((f"E[y{i}y{j}]", (lambda X, i=i, j=j: ((X - mu) @ Li.T)[:, i] * ((X - mu) @ Li.T)[:, j]),
+                moms.append((f"E[y{i}y{j}]", "second_moment",
+                             (lambda X, i=i, j=j: ((X - mu) @ Li.T)[:, i] * ((X - mu) @ Li.T)[:, j]),
                              1.0 if i == j else 0.0, math.sqrt(2.0) if i == j else 1.0))
         omega = np.sqrt(rec["scale"] * np.array(rec["lam"], dtype=np.float64))
         start = mu + Lc @ np.array(rec["start"], dtype=np.float64)
@@ -868,14 +871,15 @@ def _target(rec):
     moms = []
     fs = []
     for i in range(n):
-        fs += [(f"E[x{i}]", (lambda Y, i=i: Y[:, i])), (f"E[x{i}^2]", (lambda Y, i=i: Y[:, i] ** 2)),
-               (f"E[x{i}^4]", (lambda Y, i=i: Y[:, i] ** 4))]
+        fs += [(f"E[x{i}]", "mean", (lambda Y, i=i: Y[:, i])),
+               (f"E[x{i}^2]", "second_moment", (lambda Y, i=i: Y[:, i] ** 2)),
+               (f"E[x{i}^4]", "fourth_moment", (lambda Y, i=i: Y[:, i] ** 4))]
     if n == 2:
-        fs.append(("E[x0x1]", lambda Y: Y[:, 0] * Y[:, 1]))
-    for name, f in fs:
+        fs.append(("E[x0x1]", "second_moment", lambda Y: Y[:, 0] * Y[:, 1]))
+    for name, kind, f in fs:
         m1 = ex(f(X))
         m2 = ex(f(X) ** 2)
-        moms.append((name, f, m1, math.sqrt(max(m2 - m1 * m1, 0.0))))
+        moms.append((name, kind, f, m1, math.sqrt(max(m2 - m1 * m1, 0.0))))
     ex2 = np.array([ex(X[:, i] ** 2) for i in range(n)])
     hess = 3.0 * a * ex2 + np.abs(A).sum(axis=1)          # typical curvature scale
     omega = np.sqrt(np.maximum(hess, 0.25) * invm)
@@ -891,18 +895,18 @@ def _moment_checks(rec, X, moms, cls):
     N = X.shape[0]
     assert N == NKEEP
     worst = 0.0
-    for name, f, mean, sigma in moms:
+    for name, kind, f, mean, sigma in moms:
         v = f(X)
         require(bool(np.all(np.isfinite(v))), "chain_nonfinite_samples", name)
         bm = v.reshape(NB, -1).mean(axis=1)
         se = float(bm.std(ddof=1)) / math.sqrt(NB)
-        thr = 6.0 * se + 6.0 * max(se, sigma / math.sqrt(N))
+        thr = 6.0 * se + 3.0 * max(se, sigma / math.sqrt(N))
         err = abs(float(v.mean()) - mean)
         worst = max(worst, err / thr)
         if _TRACE is not None:
             _TRACE.append((name, err, se, sigma / math.sqrt(N)))
-        require(err <= thr, "chain_moment_" + name.translate({ord(c): None for c in "0123456789"}),
-                f"{name}: sample {v.mean():.5f} target {mean:.5f} |err|={err:.4f} > 6*SE_bm + 6*max(SE_bm, SE_iid), "
+        require(err <= thr, "chain_" + kind + "_vs_target",
+                f"{name}: sample {v.mean():.5f} target {mean:.5f} |err|={err:.4f} > 6*SE_bm + 3*max(SE_bm, SE_iid), "
                 f"SE_bm={se:.5f} SE_iid={sigma / math.sqrt(N):.5f}")
     cls.append("worst_err/thr<0.25" if worst < 0.25 else ("worst_err/thr<0.5" if worst < 0.5 else "worst_err/thr>=0.5"))
 
@@ -1053,35 +1057,36 @@ def check_chain_nuts(rec):
 # ---------------------------------------------------------------------------------------------- registration
 SUBS = [
     Sub(name="leapfrog_reversible", check=check_leapfrog, strategy=leapfrog_recipes, quick=240, thorough=6000,
-        shards=2, jax=True,
+        shards=2, jax=True, budget_quick=110.0,
         rule="k leapfrog_step calls == the harness's NumPy leapfrog orbit; Phi^k(flip(Phi^k(z))) == flip(z) and "
              "Phi_{-eps}^k(Phi_eps^k(z)) == z to 1e-9*scale; non-trivial = k >= 2 and (non-quadratic potential or "
              "dimension >= 2)"),
-    Sub(name="leapfrog_symplectic", check=check_symplectic, strategy=symplectic_recipes, quick=120, thorough=3000,
-        shards=2, jax=True,
+    Sub(name="leapfrog_symplectic", check=check_symplectic, strategy=symplectic_recipes, quick=100, thorough=3000,
+        shards=1, jax=True, budget_quick=110.0,
         rule="J = jax.jacfwd of k leapfrog_step calls on the flattened (q,p): J^T Omega J == Omega, det J == 1, "
              "J == central differences of the reference flow; non-trivial = J has off-diagonal entries > 1e-3 and "
              "(non-quadratic potential or dimension >= 2)"),
     Sub(name="hmc_accept_reject", check=check_accrej, strategy=accrej_recipes, quick=360, thorough=9000, shards=3,
-        jax=True,
+        jax=True, budget_quick=110.0,
         rule="generate_hmc_acc_rej: initial point returned on the side named by the flag, proposal == "
              "flip(reference leapfrog iterate), accepted == bernoulli(key, min(1, exp(H0-H1))) with the oracle's "
              "energies (non-finite proposal energy => rejected), diverging == |H0-H1| > max; step sizes up to 16x "
              "the stable range; non-trivial = accept decision asserted, L >= 2, non-quadratic or dimension >= 2"),
     Sub(name="nuts_tree", check=check_nuts, strategy=nuts_recipes, quick=300, thorough=9000, shards=3, jax=True,
+        budget_quick=110.0,
         rule="generate_nuts_tree on 8 (layout, max_tree_depth, bias_transition) configurations: left/right/candidate on "
              "the reference orbit of the initial point, 2**depth points around index 0, logweight == logsumexp(-H), "
              "turning flag, every merged doubling complete/non-turning/non-diverging, a reason for stopping exists, "
              "diverging flag; non-trivial = depth >= 2 and the tree extends in both time directions"),
-    Sub(name="chain_hmc", check=check_chain_hmc, strategy=chain_recipes("hmc"), quick=8, thorough=64, shards=4,
+    Sub(name="chain_hmc", check=check_chain_hmc, strategy=chain_recipes("hmc"), quick=9, thorough=96, shards=3,
         jax=True, budget_quick=120.0,
-        rule="HMCChain.generate_n_samples, 512+16384 samples, fixed key from the recipe, Gaussian (rotated, scaled, "
+        rule="HMCChain.generate_n_samples, 512+32768 samples, fixed key from the recipe, Gaussian (rotated, scaled, "
              "non-unit mass) and quartic (1-d / coupled 2-d incl. double wells) targets: chain bookkeeping, first 48 "
              "proposals == reference leapfrog, refreshed momenta ~ N(0, M) (7 sigma, i.i.d.), moments within "
-             "6 SE_bm + 6 max(SE_bm, sigma/sqrt(N)); non-trivial = some proposals rejected or non-Gaussian target"),
-    Sub(name="chain_nuts", check=check_chain_nuts, strategy=chain_recipes("nuts"), quick=8, thorough=64, shards=4,
+             "6 SE_bm + 3 max(SE_bm, sigma/sqrt(N)); non-trivial = some proposals rejected or non-Gaussian target"),
+    Sub(name="chain_nuts", check=check_chain_nuts, strategy=chain_recipes("nuts"), quick=9, thorough=96, shards=3,
         jax=True, budget_quick=120.0,
-        rule="NUTSChain.generate_n_samples, 512+16384 samples, same targets, biased and unbiased transitions: samples "
+        rule="NUTSChain.generate_n_samples, 512+32768 samples, same targets, biased and unbiased transitions: samples "
              "== candidates, first 32 trees are reference orbits through the previous sample, moments within "
-             "6 SE_bm + 6 max(SE_bm, sigma/sqrt(N)); non-trivial = mean tree depth >= 1.5"),
+             "6 SE_bm + 3 max(SE_bm, sigma/sqrt(N)); non-trivial = mean tree depth >= 1.5"),
 ]
